@@ -728,6 +728,15 @@ pub fn k_resume_compact_f8_c4_k0<N: Nd>(nd: &mut N) {
 pub fn k_resume_compact_f8_c4_k1<N: Nd>(nd: &mut N) {
     k_resume_compact::<N, 8, 4, 1>(nd)
 }
+pub fn k_resume_compact_f10_c5_k0<N: Nd>(nd: &mut N) {
+    k_resume_compact::<N, 10, 5, 0>(nd)
+}
+pub fn k_resume_compact_f10_c5_k1<N: Nd>(nd: &mut N) {
+    k_resume_compact::<N, 10, 5, 1>(nd)
+}
+pub fn k_resume_compact_f10_c5_k2<N: Nd>(nd: &mut N) {
+    k_resume_compact::<N, 10, 5, 2>(nd)
+}
 pub fn k_resume_grow_f7_c4_k0<N: Nd>(nd: &mut N) {
     k_resume_grow::<N, 7, 4, 0>(nd)
 }
@@ -746,6 +755,12 @@ harnesses! {
     fak_resume_fault_f8_c4_k0 => k_resume_fault_f8_c4_k0;
     /// @meta props=C01,C03,C09,C06,C14:t tier=quick kind=K stage2=pub timeout=2400 mem=20 unwind=10 unwindset="_resume_incomplete_search:2;seq_io::fill_buf:6" bounds="as fak_resume_compact_f8_c4_k0, one line end already recorded"
     fak_resume_compact_f8_c4_k1 => k_resume_compact_f8_c4_k1;
+    /// @meta props=C01:t,C03:t,C09:t,C06:t tier=thorough kind=K stage2=pub timeout=5000 mem=30 unwind=12 unwindset="_resume_incomplete_search:2;seq_io::fill_buf:7" bounds="as fak_resume_compact_f8_c4_k0 with capacity 5 over files <= 10 bytes, 0 line end(s) already recorded"
+    fak_resume_compact_f10_c5_k0 => k_resume_compact_f10_c5_k0;
+    /// @meta props=C01:t,C03:t,C09:t,C06:t tier=thorough kind=K stage2=pub timeout=5000 mem=30 unwind=12 unwindset="_resume_incomplete_search:2;seq_io::fill_buf:7" bounds="as fak_resume_compact_f8_c4_k0 with capacity 5 over files <= 10 bytes, 1 line end(s) already recorded"
+    fak_resume_compact_f10_c5_k1 => k_resume_compact_f10_c5_k1;
+    /// @meta props=C01:t,C03:t,C09:t,C06:t tier=thorough kind=K stage2=pub timeout=5000 mem=30 unwind=12 unwindset="_resume_incomplete_search:2;seq_io::fill_buf:7" bounds="as fak_resume_compact_f8_c4_k0 with capacity 5 over files <= 10 bytes, 2 line end(s) already recorded"
+    fak_resume_compact_f10_c5_k2 => k_resume_compact_f10_c5_k2;
     /// @meta props=X00 tier=pilot kind=K stage2=pub timeout=2400 mem=20 unwind=10 unwindset="_resume_incomplete_search:2;seq_io::fill_buf:7" bounds="fasta::Reader::resume_incomplete_search (both make_room values) for an unfinished first record in a full buffer of capacity 4 over every file <= 7 bytes, first read after the growth of 1..4 bytes or complete, policy granting capacity 8; no line end recorded yet"
     #[kani::stub(std::alloc::realloc, crate::util::byte_realloc)]
     fak_resume_grow_f7_c4_k0 => k_resume_grow_f7_c4_k0;
